@@ -303,6 +303,19 @@ def r5(ctx, rep):
                     ok = False
     rep.check(ok, "empty-projection", "an empty projection must be replaced by a NULL item unless the dialect supports zero columns",
               file=where["file"] if where else "prqlc/prqlc/src/sql/gen_projection.rs", line=where["l"] if where else None, fn=where["path"] if where else None)
+    # a relation literal whose rows have no fields (`from [{}]`, `from_text` with "columns": []): every SELECT that is built needs the placeholder, not only the no-rows case
+    rl = syn.fn("gen_query::translate_relation_literal", crate="prqlc")
+    sel = [n for n in walk(rl["body"]) if n.get("k") == "struct" and last_seg(n["p"]) == "Select"]
+    n_guarded = 0
+    for n in sel:
+        proj = dict(n["f"]).get("projection")
+        txt = show(proj, maxdepth=12) if proj is not None else ""
+        # the projection value is a local that had a NULL item pushed when empty, or is built right here from the row
+        if proj is not None and proj.get("k") == "path":
+            pushes = [x for x in walk(rl["body"]) if x.get("k") == "mcall" and x["m"] == "push" and show(x["r"]) == proj["p"] and "Null" in show(x, maxdepth=12)]
+            n_guarded += 1 if pushes else 0
+    rep.check(len(sel) >= 2 and n_guarded == len(sel), "empty-literal-row", f"translate_relation_literal builds {len(sel)} SELECTs and protects {n_guarded} of them against an empty projection: "
+              "`from [{}]` compiles to `WITH table_0 AS (SELECT) ..`, a syntax error", file=rl["file"], line=rl["l"], fn=rl["path"])
     # empty IN list -> false
     f = syn.fn("gen_expr::process_array_in", crate="prqlc")
     # (polarity-aware: `if empty {FALSE} else {IN}`, `if !empty {IN} else {FALSE}` or an early return)
